@@ -117,6 +117,9 @@ func cmdCheck(args []string) int {
 	if tr := w.writersObligations(*prop); len(tr.Obls) > 0 {
 		results = append(results, tr)
 	}
+	if tr := w.confinedObligations(*prop); len(tr.Obls) > 0 {
+		results = append(results, tr)
+	}
 	dir, _ := os.MkdirTemp("", "govc-")
 	defer os.RemoveAll(dir)
 	for _, k := range loadKnown(*known) {
@@ -289,6 +292,23 @@ func cmdCheck(args []string) int {
 		"integers are exact fixed-width bit-vectors; every slice/map/string length is assumed < 2^47",
 		"partial correctness only: termination, memory exhaustion and timing are not verified",
 		"go/ssa lowering of Go (x/tools v0.29.0) and the SMT solvers are trusted")
+	level, explanation := "proof", ""
+	nsyn := 0
+	for _, v := range verdicts {
+		switch v.Obl.Kind {
+		case "tag", "writers", "confined":
+			nsyn++
+		}
+	}
+	if nsyn > 0 && nsyn == len(verdicts) {
+		// only ownership / single-writer / tag obligations: decided by the analysis over go/ssa, not by a solver
+		level = "other"
+		explanation = "every obligation of this property is an ownership obligation (goroutine confinement of declared fields, complete writer lists) decided by the engine's analysis over go/ssa and the module's call graph; no SMT query is generated. The notes under assumptions state the roots found and the approximations of the call graph."
+		samples = nil
+		for _, v := range verdicts {
+			samples = append(samples, map[string]interface{}{"obligation": v.Obl.Name, "kind": v.Obl.Kind, "verdict": v.Status, "detail": v.Obl.Detail, "examined": v.Obl.Info})
+		}
+	}
 	if len(samples) == 0 {
 		samples = append(samples, map[string]interface{}{"note": "no non-trivial obligation discharged in this run"})
 	}
@@ -296,7 +316,7 @@ func cmdCheck(args []string) int {
 		"property_id": *prop,
 		"tier":        *tier,
 		"seed":        seed,
-		"level":       "proof",
+		"level":       level,
 		"coverage": map[string]interface{}{
 			"obligations":              nobl,
 			"discharged":               ndis,
@@ -312,6 +332,7 @@ func cmdCheck(args []string) int {
 			"samples":                  samples,
 			"known_findings_hit":       knownHit,
 			"per_obligation_timeout_s": timeout,
+			"explanation":              explanation,
 		},
 		"assumptions":    assumptions,
 		"wall_s":         round2(time.Since(t0).Seconds()),
